@@ -154,6 +154,9 @@ func (o *Own) release(b pool.Buffer) bool {
 
 // Audit checks the quarantine for writes after release and resets it.
 func (o *Own) Audit() []string {
+	if o == nil {
+		return nil
+	}
 	o.mu.Lock()
 	defer o.mu.Unlock()
 	for _, q := range o.quarantine {
@@ -173,6 +176,9 @@ func (o *Own) Audit() []string {
 
 // Tainted reports whether b contains a run of >=4 poison or uninit bytes.
 func (o *Own) Tainted(b []byte) string {
+	if o == nil {
+		return "" // the scenario runs without the hook (recycled buffers keep their content, as in production)
+	}
 	if bytes.Contains(b, []byte{Poison, Poison, Poison, Poison}) {
 		return "poison (released memory)"
 	}
